@@ -47,7 +47,7 @@ ASSUMPTIONS = [
 ]
 PROBES = ["overwrite_longer_then_shorter", "overwrite_other_kind", "txt_single_column", "txt_single_row", "txt_1x1", "txt_default_format",
           "net2d_empty", "net2d_no_header", "net3d_no_domain", "net3d_with_domain", "io_error_on_open", "io_error_on_write", "read_after_failed_write_skipped",
-          "three_paths", "polygon_6_vertices", "txt_integer_column", "txt_integer_first_then_float", "net2d_constrained_before_write", "net3d_georeferenced_coordinates", "net2d_tagged_fractures"]
+          "three_paths", "polygon_6_vertices", "txt_integer_column", "txt_integer_first_then_float", "net2d_constrained_before_write", "net3d_georeferenced_coordinates", "net2d_tagged_fractures", "file_names_with_inner_dots", "rejected_txt_export", "rejected_export_onto_existing_file"]
 
 
 # --------------------------------------------------------------------------------------
@@ -137,10 +137,16 @@ def run_history_c47(ch, tr: Trace) -> None:
     with ch.span("config"):
         npaths = ch.rng(1, 3)
         p_fault = ch.choice([0, 0, 1, 3])  # /10 per write operation
+        # file names: plain, or names whose last dot is not an extension separator (refinement levels, variants)
+        name_family = ch.choice([0, 0, 1, 2])
     if npaths == 3:
         tr.probe("three_paths")
     with envseam.scratch() as root:
-        paths = [Path(root) / f"f{i}.dat" for i in range(npaths)]
+        names_by_family = {0: ["f0.dat", "f1.dat", "f2.dat"], 1: ["network_dx_0.5", "network_dx_0.25", "network_dx_0.125"],
+                           2: ["fractures.coarse", "fractures.fine", "fractures.coarse.csv"]}
+        paths = [Path(root) / nm for nm in names_by_family[name_family][:npaths]]
+        if name_family:
+            tr.probe("file_names_with_inner_dots")
         model: dict = {p: ("absent", None, 0) for p in paths}  # kind, payload, size
         prev_size: dict = {}
         seam = FsSeam(root, tr)
@@ -253,6 +259,27 @@ def run_history_c47(ch, tr: Trace) -> None:
             payload = (names, [c.astype(float) for c in cols], lossless)
             finish_write(p, "txt", payload, cols[0].size * len(cols), lambda: export_data_to_txt(data, p))
 
+        def op_write_txt_rejected():
+            """Arrays of unequal length: the documented ValueError.  The path keeps what was written to it before."""
+            p = ch.choice(paths)
+            names, cols, lossless = gen_txt(ch)
+            if len(cols) < 2:
+                return
+            cols = [c.copy() for c in cols]
+            cols[-1] = np.concatenate([cols[-1], cols[-1][:1]])  # one value too many in the last array
+            data = [TxtData(nm, c) for nm, c in zip(names, cols)]
+            try:
+                export_data_to_txt(data, p)
+            except ValueError:
+                tr.fault("rejected-call", "txt_unequal_lengths")
+                tr.probe("rejected_txt_export")
+                tr.op("write_txt", "rejected", p.name, changing=False)
+                if model[p][0] not in ("absent", "indeterminate"):
+                    tr.probe("rejected_export_onto_existing_file")
+                    op_read(p)  # the earlier successful export must still be there
+                return
+            raise Violation("invalid_call_rejected", f"export_data_to_txt with arrays of lengths {[c.size for c in cols]} was accepted")
+
         # ---- read ---------------------------------------------------------------------
         def op_read(p=None):
             if p is None:
@@ -311,6 +338,7 @@ def run_history_c47(ch, tr: Trace) -> None:
             Op("write_net2d", 3, op_write_2d),
             Op("write_net3d", 2, op_write_3d),
             Op("write_txt", 4, op_write_txt),
+            Op("write_txt_rejected", 1, op_write_txt_rejected),
             Op("read", 5, op_read, core=True),
         ]
         with seam:
